@@ -7,6 +7,22 @@ FIRST_MISSED = {"C09-A": "no obligation with an explicit random_state + resample
     "C08-B": "n_total of the resuming call was not observed", "C03-A": "only nu=3 was encoded; draw-order mismatch was silently cut", "C03-B": "symbolic mode statistics bypassed ModeStatistics.__init__",
     "C11-B": "quick tier had n=2 only (needs more unsupported than supported draws)", "C12-B": "resume target not observed", "C13-B": "pool double had no submit()/as_completed interface",
     "C15-B": "cap clause needs >= 8 points (two clusters splittable in one sweep)", "C16-A": "int64 bit-and missing in the bit-vector scalar (harness error)", "C17-B": "no operation handing in a read-only view",
+    "C03-3A": "one kernel iteration per run only: state carried from iteration 1 to 2 (a stale distance cache) was never exercised",
+    "C03-3B": "same: modes re-attached after the accept step only matter from the second iteration on",
+    "C09-3B": "no sampler iteration with periodic checkpoints (save_every)",
+    "C11-3A": "harness error: numpy inside SamplerCore._log_like was not modelled for symbolic likelihood values",
+    "C11-3B": "no resume in the middle of the warm-up phase",
+    "C14-3B": "clusterer double had no labels_ attribute (hard labels of the fit, which may differ from predict)",
+    "C15-3A": "one fit per model object only",
+    "C19-3A": "np.isclose was not modelled on symbolic data (harness error)",
+    "C08-3A": "pickler double accepted pool objects inside the checkpoint dictionary (only dumps(core) refused them)",
+    "C08-3B": "resume obligations stopped at the loop head; the first iteration after a resume with clustering was not run",
+    "C13-3A": "numpy.random as seen by the dispatch code was the real module (consumption not observed)",
+    "C13-3B": "no obligation comparing reported calls with evaluations across a resume",
+    "C20-3B": "magnitudes (underflow/overflow of squared weights) were outside the exact-real claim; round-off model added",
+    "C18-3B": "running with a pool object and periodic checkpoints is not claimed by C18; reported by C08 (save-configurations)",
+    "C19-3B": "the change is in ModeStatistics.from_particles, not in the fit; reported by C14 (mode-fit-draws)",
+    "C10-2B": "temperatures were on a rational grid; arbitrary real temperatures added (uninterpreted exp(beta*l), Ackermann congruence)",
     "C19-A": "budget exhausted; replay compared at scale 0.1 only (and with numpy's absolute tolerance)", "C19-B": "configured fallback equalled the class default in the harness"}
 rows = []
 for d in sorted(glob.glob(os.path.join(os.path.dirname(__file__), "..", "seeded", "*"))):
@@ -20,10 +36,18 @@ for d in sorted(glob.glob(os.path.join(os.path.dirname(__file__), "..", "seeded"
     what = (first[0] if first else "")[:150]
     sigs = [re.sub(r"^\s*signature=", "", l)[:110] for l in m.get("check_output", []) if "signature=" in l][:1]
     status = "caught (VIOLATION)" if m.get("detected") else ("inconclusive (exit 3)" if m.get("check_exit") == 3 else "missed")
+    cc = m.get("cross_check")
+    if not m.get("detected") and cc and cc.get("detected"):
+        status += f"; caught by {cc['property']}"
+        sigs_cc = [re.sub(r"^\s*signature=", "", l)[:110] for l in cc.get("output", []) if "signature=" in l][:1]
+    else:
+        sigs_cc = []
+    sigs = sigs or sigs_cc
     rows.append((key, m.get("confirmed"), status, m.get("check_wall_s"), what.replace("|", "/"), (sigs[0] if sigs else "").replace("|", "/"), FIRST_MISSED.get(key, "")))
 print("| change | confirmed | quick check | wall s | what it is | reported as | first missed because |")
 print("|---|---|---|---|---|---|---|")
 for r in rows:
     print("| " + " | ".join(str(x) for x in r) + " |")
 n = len(rows); c = sum(1 for r in rows if r[2].startswith("caught"))
-print(f"\n{c} of {n} confirmed changes are reported as VIOLATION by the quick tier of the property they target.")
+x = sum(1 for r in rows if "caught by" in r[2])
+print(f"\n{c} of {n} confirmed changes are reported as VIOLATION by the quick tier of the property they target; {x} more by the quick tier of another property.")
